@@ -85,6 +85,10 @@ impl KeyMap {
         assert_eq!(by_id.len(), names.len(), "key names must map to distinct keys");
         KeyMap { family: family.to_string(), map, by_id }
     }
+    pub fn add(&mut self, name: &str, k: PrivateKey) {
+        self.by_id.insert(kid_str(k.key_id()), name.to_string());
+        self.map.insert(name.to_string(), k);
+    }
     pub fn sk(&self, name: &str) -> &PrivateKey {
         self.map.get(name).unwrap_or_else(|| panic!("no key {name}"))
     }
